@@ -12,6 +12,7 @@ import itertools
 import numpy as np
 from vf import core
 from vf.ref import defs, dims, names, uexpr, equivs
+from vf.gen import c09_registries as regs
 from .common import chunks, snap, TAINTED
 
 RULE = ("one evaluation = one sub-monitor verdict on one real call (or call pair): value vs the SI formula, result unit vs requested unit, "
@@ -19,7 +20,8 @@ RULE = ("one evaluation = one sub-monitor verdict on one real call (or call pair
         "via-intermediate vs direct, refusal of an uncovered (equivalence, from-dimension, to-dimension) request, has_equivalent/"
         "list_equivalencies vs the reference membership.  distinct cell = (sub-monitor, equivalence, from-kind, to-kind, entry point, "
         "dtype, container kind) for call-level monitors and (formula, equivalence, from-kind, to-kind, input unit, target unit) for the "
-        "unit grid, counted only for non-zero finite inputs inside the equivalence's domain")
+        "unit grid, counted only for non-zero finite inputs inside the equivalence's domain; every call-level monitor is evaluated both on operands of "
+        "the default registry and on operands bound to a fresh non-default registry (cell gets 'reg=<registry class>')")
 ASSUMPTIONS = (
     "vf/ref/equivs.py: E=kT; E=mc^2; E=h nu=hc/lambda=hc k; gamma=1/sqrt(1-v^2/c^2); R=2GM/c^2; lambda=h/(mc); rho=mu mH n; "
     "E=kT=mu mH cs^2/gamma; F=sigma T^4 - evaluated in longdouble",
@@ -55,6 +57,22 @@ ASSUMPTIONS = (
     "negative inputs are generated only for the linear and reciprocal maps; lorentz, sound_speed and effective_temperature are judged on "
     "their physical domain (0<=v<c, gamma>=1, positive T, E, F, cs)",
     "a view converted in place necessarily rewrites part of its base's buffer; the base is not judged for in-place calls",
+    "registry dimension (vf/gen/c09_registries.py): operands are also bound to fresh registries of six classes - nonmks-system (UnitRegistry("
+    "unit_system=cgs|galactic|imperial|planck|geometrized|solar)), mks-system, added-symbols, modified-default-symbol, modified-user-symbol "
+    "(add with a placeholder then modify), code-units (code_length/mass/time/temperature/velocity/density, optionally with a code UnitSystem "
+    "registered for the registry); the formula oracle is unchanged: SI magnitudes via the reference scale of the unit strings, and for a registry "
+    "symbol the scale handed to add()/modify() (prefix k x 1000 for a prefixable user symbol); such symbols are exact (no tolerance class)",
+    "string targets are parsed against the operand's registry by the library; Unit-object targets are built against the operand's registry, or "
+    "(system classes only, every other case) against the default registry - the meaning of every default spelling is the same in both",
+    "a result or base-conversion label written in a unit whose table value is a listed C02 finding (the solar system's Mearth) is counted, not judged",
+    "mechanism keys and cells of registry cases carry ':reg=<class>'; a formula failure seen only through the class API (Equivalence.convert, copying "
+    "or in-place) on data still written in a re-valued DEFAULT symbol has ONE key ('class-api-forms', no equivalence / direction): the mechanism (a "
+    "constant of the default registry is the left operand, the symbol is resolved in the left operand's registry) depends on neither, and the set of "
+    "equivalences in which a run sees it depends on the seed (first keyed per equivalence: seed 3 raised two unlisted siblings)",
+    "only non-coherent named default symbols (Msun, ft, eV, R, ...) are re-valued, never a symbol another token of the same case is derived from "
+    "(prefixed/aliased spelling), never SI/CGS base or coherent derived units; registries with re-valued default symbols run one case per child "
+    "process: OPEN ITEM - two such registries in one process history showed a 1e-12 via-intermediate/direct disagreement (spectral, mil -> keV -> "
+    "1/Mpc after a case on a registry with Rjup re-valued) that was not reproduced stand-alone within the time limit; not driven, not judged, not listed",
 )
 MIN_EVALS = 5000
 TIMEOUT = 1500
@@ -109,12 +127,14 @@ class RefUnit:
     """scale, dimension, affine offset (in SI) and tolerance class of a unit string, by vf/ref only"""
     _cache = {}
 
-    def __init__(self, s):
+    def __init__(self, s, overlay=None):
         atoms = []
-        base = names.resolver()
+        base = names.resolver(overlay)
 
         def res(tok):
             r = base(tok)
+            if overlay and tok in overlay:
+                return r                  # registry symbol: its meaning is the scale handed to add()/modify(), exact
             t = tok
             if t.startswith("°"):
                 t = "deg" + t[1:]
@@ -138,10 +158,11 @@ class RefUnit:
             self.scale = de.value
 
     @classmethod
-    def get(cls, s):
-        u = cls._cache.get(s)
+    def get(cls, s, overlay=None, ovkey=None):
+        k = s if not overlay else (s, ovkey)
+        u = cls._cache.get(k)
         if u is None:
-            u = cls._cache[s] = cls(s)
+            u = cls._cache[k] = cls(s, overlay)
         return u
 
     def to_si(self, readings):
@@ -232,6 +253,31 @@ def pair_cases(tier, seed, eq, a, b):
     return cases
 
 
+REG_PLAN = {"quick": (("nonmks-system", 12), ("mks-system", 2), ("added-symbols", 6), ("modified-symbol", 8), ("code-units", 6)),
+            "thorough": (("nonmks-system", 36), ("mks-system", 4), ("added-symbols", 15), ("modified-symbol", 20), ("code-units", 18))}
+REG_DTK = (("f8", "a1"), ("f8", "q"), ("i8", "a2"), ("f8", "view"), ("f4", "a1"), ("f8", "viewT"), ("i4", "one"), ("f8", "a2"), ("i8", "q"),
+           ("f8", "one"), ("f4", "view"), ("i8", "a1"))
+
+
+def reg_cases(tier, seed, eq, a, b):
+    """conversions of member a to member b on operands bound to non-default registries (vf/gen/c09_registries.py): every registry class,
+    every built-in non-MKS system, rotating dtype / container kind, units drawn from the whole pool of each member"""
+    r = core.rng(seed, "regcases", eq, a, b)
+    pin, pout = POOL[a], POOL[b]
+    cases = []
+    i = 100000
+    off = r.randrange(12)
+    for cls, n in REG_PLAN[tier]:
+        if a == b:
+            n = max(2, n // 3)
+        for j in range(n):
+            uin, uout = pin[r.randrange(len(pin))], pout[r.randrange(len(pout))]
+            dt, kd = REG_DTK[(j + off + i) % len(REG_DTK)]
+            spec, uin, uout = regs.gen_spec(r, cls, a, b, uin, uout, j + off)
+            cases.append([eq, a, b, uin, uout, dt, kd, kw_for(eq, r, i), i, spec]); i += 1
+    return cases
+
+
 def all_pairs():
     out = []
     for eq in EQS:
@@ -265,6 +311,21 @@ def batches(tier, seed):
             for i, c in enumerate(chunks(cs, k)):
                 b.append((f"conv/{eq}/s{si}/{i}", ("conv", {"seed": sd, "cases": c})))
             mixed += r.sample(cs, min(len(cs), 24 if tier == "quick" else 80))
+            rc = []
+            for (e, a, bb) in all_pairs():
+                if e == eq:
+                    rc += reg_cases(tier, sd, eq, a, bb)
+            # re-valued default symbols: one case per child (see ASSUMPTIONS: a history of two such registries in one process is
+            # not driven yet - open item), everything else interleaved
+            iso = [c for c in rc if c[9]["cls"] == "modified-default-symbol"]
+            rc = [c for c in rc if c[9]["cls"] != "modified-default-symbol"]
+            for i, c in enumerate(iso):
+                b.append((f"regmod/{eq}/s{si}/{i}", ("conv", {"seed": sd, "cases": [c]})))
+            r.shuffle(rc)                      # registries of different classes / systems follow one another inside one child
+            k = max(1, len(rc) // (40 if tier == "quick" else 100))
+            for i, c in enumerate(chunks(rc, k)):
+                b.append((f"reg/{eq}/s{si}/{i}", ("conv", {"seed": sd, "cases": c})))
+            mixed += r.sample(rc, min(len(rc), 8 if tier == "quick" else 30))
     r = core.rng(seed, "mixed")
     r.shuffle(mixed)                       # all nine equivalences interleaved in one process history
     for i, c in enumerate(chunks(mixed, 4 if tier == "quick" else 12)):
@@ -324,27 +385,28 @@ def gen_readings(eq, a, ru, dt, r, n, degree=1):
     return arr
 
 
-def build(unyt, arr, uin, kind):
-    """-> (x, base) fresh operand of the requested container kind; base is the owner of the buffer for views"""
+def build(unyt, arr, uin, kind, reg=None):
+    """-> (x, base) fresh operand of the requested container kind; base is the owner of the buffer for views; reg: registry to bind to"""
+    rk = {} if reg is None else {"registry": reg}
     if kind == "q":
-        x = unyt.unyt_quantity(np.array(arr[0], dtype=arr.dtype), uin)
+        x = unyt.unyt_quantity(np.array(arr[0], dtype=arr.dtype), uin, **rk)
         return x, None, arr[:1].reshape(())
     if kind == "a1":
-        return unyt.unyt_array(arr.copy(), uin), None, arr
+        return unyt.unyt_array(arr.copy(), uin, **rk), None, arr
     if kind == "one":                       # size-1 array (its own branch in __array_ufunc__)
-        return unyt.unyt_array(arr[:1].copy(), uin), None, arr[:1]
+        return unyt.unyt_array(arr[:1].copy(), uin, **rk), None, arr[:1]
     if kind == "a2":
         a2 = arr.reshape(2, -1).copy()
-        return unyt.unyt_array(a2, uin), None, a2
+        return unyt.unyt_array(a2, uin, **rk), None, a2
     if kind == "view":
         raw = np.empty(2 * arr.size, dtype=arr.dtype)
         raw[::2] = arr
         raw[1::2] = arr[::-1]
-        base = unyt.unyt_array(raw, uin)
+        base = unyt.unyt_array(raw, uin, **rk)
         return base[::2], base, arr
     if kind == "viewT":
         a2 = arr.reshape(-1, 2).copy()
-        base = unyt.unyt_array(a2, uin)
+        base = unyt.unyt_array(a2, uin, **rk)
         return base.T, base, a2.T
     raise KeyError(kind)
 
@@ -405,33 +467,34 @@ def dtclass(dt):
     return dt
 
 
-def call_entry(unyt, entry, x, uout, eq, kw):
-    """performs one entry point; returns (result-or-None, in_place flag)"""
+def call_entry(unyt, entry, x, uout, eq, kw, U=None):
+    """performs one entry point; returns (result-or-None, in_place flag); U builds Unit-object targets (default: unyt.Unit)"""
+    U = U or unyt.Unit
     from unyt.equivalencies import equivalence_registry
     if entry == "to":
         return x.to(uout, eq, **kw)
     if entry == "to(equivalence=)":
         return x.to(uout, equivalence=eq, **kw)
     if entry == "to(Unit)":
-        return x.to(unyt.Unit(uout), equivalence=eq, **kw)
+        return x.to(U(uout), equivalence=eq, **kw)
     if entry == "in_units":
         return x.in_units(uout, equivalence=eq, **kw)
     if entry == "to_equivalent":
         return x.to_equivalent(uout, eq, **kw)
     if entry == "to_equivalent(equivalence=)":
-        return x.to_equivalent(unyt.Unit(uout), equivalence=eq, **kw)
+        return x.to_equivalent(U(uout), equivalence=eq, **kw)
     if entry == "to_value":
         return x.to_value(uout, equivalence=eq, **kw)
     if entry == "Equivalence.convert":
-        return equivalence_registry[eq]().convert(x, unyt.Unit(uout).dimensions, **kw)
+        return equivalence_registry[eq]().convert(x, U(uout).dimensions, **kw)
     if entry == "convert_to_units":
         x.convert_to_units(uout, eq, **kw); return x
     if entry == "convert_to_units(equivalence=)":
-        x.convert_to_units(unyt.Unit(uout), equivalence=eq, **kw); return x
+        x.convert_to_units(U(uout), equivalence=eq, **kw); return x
     if entry == "convert_to_equivalent":
         x.convert_to_equivalent(uout, eq, **kw); return x
     if entry == "Equivalence(in_place).convert":
-        r = equivalence_registry[eq](in_place=True).convert(x, unyt.Unit(uout).dimensions, **kw)
+        r = equivalence_registry[eq](in_place=True).convert(x, U(uout).dimensions, **kw)
         return x if r is not None else None
     if entry == "convert_to_base":
         x.convert_to_base(equivalence=eq, **kw); return x
@@ -442,13 +505,13 @@ def call_entry(unyt, entry, x, uout, eq, kw):
     raise KeyError(entry)
 
 
-def result_unit(res):
+def result_unit(res, ov=None, ovkey=None):
     """(RefUnit of the label carried by the result) or None"""
     u = getattr(res, "units", None)
     if u is None:
         return None
     try:
-        return RefUnit.get(str(u))
+        return RefUnit.get(str(u), ov, ovkey)
     except Exception:
         return None
 
@@ -476,15 +539,44 @@ def flat(v, i):
 
 
 def run_case(unyt, rec, K, case, r):
-    eq, a, b, uin, uout, dt, kind, kw, idx = case
+    eq, a, b, uin, uout, dt, kind, kw, idx = case[:9]
+    spec = case[9] if len(case) > 9 else None        # registry the operands are bound to (None: the default registry)
     pair = f"{a}->{b}"
-    rin, rout = RefUnit.get(uin), RefUnit.get(uout)
+    ov = ovkey = reg = None
+    ksuf, rcell, rdesc, U = "", (), "", None
+    if spec is not None:
+        ov = regs.overlay(spec) or None
+        ovkey = tuple(sorted((k, v[0]) for k, v in ov.items())) if ov else None
+        try:
+            reg = regs.build_registry(unyt, spec)
+        except Exception as e:
+            rec.violation(f"C09:registry-construction:{spec['cls']}:{type(e).__name__}", f"{regs.describe(spec)} raised {type(e).__name__}: {str(e)[:200]}", spec)
+            return
+        ksuf, rcell, rdesc = ":reg=" + spec["cls"], ("reg=" + spec["cls"],), f"[operands bound to {regs.describe(spec)}] "
+        if spec["tu"] == "own" or ov:
+            U = lambda s_: unyt.Unit(s_, registry=reg)      # noqa: E731
+        rec.count("reg:cases:" + spec["cls"])
+        if spec["sys"]:
+            rec.count("reg:system:" + spec["sys"])
+
+    def viol(key, desc, c):
+        rec.violation(key + ksuf, rdesc + desc, c)
+
+    def okc(cell, n=1):
+        rec.ok(cell + rcell, n=n)
+
+    def cnt(name, n=1):
+        rec.count(name, n)
+        if spec is not None and name.startswith("sub:"):
+            rec.count("reg:" + name, n)
+            rec.count(f"reg:{spec['cls']}:{name}", n)
+    rin, rout = RefUnit.get(uin, ov, ovkey), RefUnit.get(uout, ov, ovkey)
     if rin.tainted or rout.tainted:
         rec.count("skipped:tainted-unit"); return
     arr = gen_readings(eq, a, rin, dt, r, NVAL, equivs.degree(eq, a, b))
     if arr is None:
         rec.count("skipped:no-values-in-domain:" + dt); return
-    x0, _, shaped = build(unyt, arr, uin, kind)
+    x0, _, shaped = build(unyt, arr, uin, kind, reg)
     xsi = rin.to_si(shaped.astype(equivs.LD))
     if not equivs.domain_ok(eq, a, xsi, K):
         rec.count("skipped:outside-domain"); return
@@ -498,6 +590,8 @@ def run_case(unyt, rec, K, case, r):
     offset_in = rin.offset and a != b
     case_d = {"eq": eq, "from": a, "to": b, "uin": uin, "uout": uout, "dtype": dt, "kind": kind, "kw": kw,
               "readings": np.asarray(shaped, dtype="f8").reshape(-1).tolist(), "expected": np.asarray(exp, dtype="f8").reshape(-1).tolist()}
+    if spec is not None:
+        case_d["registry"] = spec
     rec.reach(f"{eq}:{pair}")
     rec.sample(case_d, limit=2)
 
@@ -525,13 +619,13 @@ def run_case(unyt, rec, K, case, r):
                 dcls = "int-pow-overflow"        # input class: x**degree of the formula does not fit the integer dtype
     for entry in entries:
         inplace = entry in INPLACE_ENTRIES
-        x, base, _ = build(unyt, arr, uin, kind)
+        x, base, _ = build(unyt, arr, uin, kind, reg)
         before = snap(x)
         bbefore = snap(base) if base is not None else None
         tap = UfuncTap(unyt)
         try:
             with tap, np.errstate(all="ignore"):
-                res = call_entry(unyt, entry, x, uout, eq, kw)
+                res = call_entry(unyt, entry, x, uout, eq, kw, U)
             exc = None
         except Exception as e:
             res, exc = None, e
@@ -541,13 +635,13 @@ def run_case(unyt, rec, K, case, r):
         if offset_in:
             if exc is not None:
                 rec.note(f"offset-input-refused:{eq}:{type(exc).__name__}")
-                rec.ok(("offset-input",) + cell); rec.count("sub:offset-input")
+                okc(("offset-input",) + cell); cnt("sub:offset-input")
                 continue
         if exc is not None:
             raised[entry] = (type(exc).__name__, f"{eq} {uin}->{uout} via {entry} ({dt}, {kind}, {kw}) raised {type(exc).__name__}: {str(exc)[:200]}")
             continue
         if res is None:
-            rec.violation(f"C09:returns-none:{eq}:{pair}:{entry}", f"{eq} {uin}->{uout} via {entry} ({dt}, {kind}) returned None (no branch taken)", case_d)
+            viol(f"C09:returns-none:{eq}:{pair}:{entry}", f"{eq} {uin}->{uout} via {entry} ({dt}, {kind}) returned None (no branch taken)", case_d)
             continue
         # ---- (4) purity of the copying forms
         if not inplace:
@@ -558,33 +652,35 @@ def run_case(unyt, rec, K, case, r):
             elif base is not None and snap(base) != bbefore:
                 what = "base-of-view"
             if what:
-                rec.violation(f"C09:input-mutated:{eq}:{pair}:{entry}:{what}",
+                viol(f"C09:input-mutated:{eq}:{pair}:{entry}:{what}",
                               f"{entry} is a copying form but changed its input ({what}): {eq} {uin}->{uout}, input now {x!r}", case_d)
             else:
-                rec.ok(("purity",) + cell); rec.count("sub:purity")
+                okc(("purity",) + cell); cnt("sub:purity")
             if isinstance(res, np.ndarray) and isinstance(x, np.ndarray) and np.shares_memory(res, x):
                 rec.note(f"copy-result-aliases-input:{entry}")
         # ---- unit label
         if entry == "to_value":
             if hasattr(res, "units"):
-                rec.violation(f"C09:to_value:{eq}:{pair}:not-bare", f"to_value returned {type(res).__name__} with units", case_d)
+                viol(f"C09:to_value:{eq}:{pair}:not-bare", f"to_value returned {type(res).__name__} with units", case_d)
                 continue
             got = np.asarray(res)
             rlab = rout
         else:
-            rlab = result_unit(res)
+            rlab = result_unit(res, ov, ovkey)
             if rlab is None:
-                rec.violation(f"C09:unit:{eq}:{pair}:{entry}:unreadable", f"result of {entry} carries no readable unit: {res!r}", case_d)
+                viol(f"C09:unit:{eq}:{pair}:{entry}:unreadable", f"result of {entry} carries no readable unit: {res!r}", case_d)
                 continue
+            if rlab.tainted:
+                rec.count("skipped:tainted-result-label"); continue
             got = np.asarray(res.d)
             free = entry.startswith("Equivalence")          # the class API returns whatever unit the formula produced
             if rlab.dim != rout.dim or (not free and (abs(rlab.scale / rout.scale - 1) > 1e-9 or abs(rlab.zero - rout.zero) > 1e-9 * (abs(rout.zero) + 1))):
-                rec.violation(f"C09:unit:{eq}:{pair}:{entry}:{'dimension' if rlab.dim != rout.dim else 'scale'}",
+                viol(f"C09:unit:{eq}:{pair}:{entry}:{'dimension' if rlab.dim != rout.dim else 'scale'}",
                               f"{eq} {uin}->{uout} via {entry}: result is labelled {res.units} ({dims.show(rlab.dim)})", case_d)
                 continue
-            rec.ok(("unit",) + cell); rec.count("sub:unit")
+            okc(("unit",) + cell); cnt("sub:unit")
         if got.shape != exp.shape:
-            rec.violation(f"C09:result-shape:{eq}:{pair}:{entry}", f"{entry}: result shape {got.shape}, input shape {exp.shape}", case_d)
+            viol(f"C09:result-shape:{eq}:{pair}:{entry}", f"{entry}: result shape {got.shape}, input shape {exp.shape}", case_d)
             continue
         results[entry] = (got, rlab, tap.bad, str(getattr(res, "units", "")))
         # ---- (1) formula
@@ -600,7 +696,7 @@ def run_case(unyt, rec, K, case, r):
         ok, bad = within(got, want, bound(eps_of(got.dtype), 64, rlab, rlab.utol if rlab is not rout else 0.0))
         mon = "offset-input" if offset_in else "formula"
         if ok:
-            rec.ok((mon,) + cell); rec.ok(("formula-units", eq, a, b, uin, uout), n=0); rec.count("sub:" + mon)
+            okc((mon,) + cell); okc(("formula-units", eq, a, b, uin, uout), n=0); cnt("sub:" + mon)
             passed.add(entry)
         else:
             failed[entry] = (f"{flat(shaped, bad)!r} {uin} -> {flat(got, bad)!r} {uout if rlab is rout else rlab.s} via {entry} ({eq}, {dt}, {kind}, {kw}); "
@@ -623,7 +719,11 @@ def run_case(unyt, rec, K, case, r):
             else:
                 groups += [(e, [e]) for e in ip_f]
         for scope, es in groups:
-            rec.violation(f"C09:{mon}:{eq}:{pair}:{scope}:{dcls}", failed[es[0]] + (f" [same for {len(es)} entry points: {', '.join(es)}]" if len(es) > 1 else ""), case_d)
+            if spec is not None and spec["cls"] == "modified-default-symbol" and all(e.startswith("Equivalence") for e in es):
+                # input class of its own (see ASSUMPTIONS): the class API applied to data still written in the re-valued symbol
+                viol(f"C09:{mon}:class-api-forms", failed[es[0]] + f" [{eq} {pair}; entry points: {', '.join(es)}]", case_d)
+                continue
+            viol(f"C09:{mon}:{eq}:{pair}:{scope}:{dcls}", failed[es[0]] + (f" [same for {len(es)} entry points: {', '.join(es)}]" if len(es) > 1 else ""), case_d)
     if raised:
         ran = set(results)
         for cls in sorted({c for c, _ in raised.values()}):
@@ -639,18 +739,18 @@ def run_case(unyt, rec, K, case, r):
                 groups += [("all-in-place-forms", ip_r)] if (len(ip_r) >= 2 and not ip_other) else [(e, [e]) for e in ip_r]
             for scope, es in groups:
                 if uin in SELF_CANCELLING:      # input class of its own: the pair is irrelevant to the mechanism
-                    rec.violation(f"C09:raises:{eq}:{scope}:{cls}:self-cancelling-input-unit", raised[es[0]][1] + f" [{len(es)} entry points: {', '.join(es)}]", case_d)
+                    viol(f"C09:raises:{eq}:{scope}:{cls}:self-cancelling-input-unit", raised[es[0]][1] + f" [{len(es)} entry points: {', '.join(es)}]", case_d)
                     continue
-                rec.violation(f"C09:raises:{eq}:{pair}:{scope}:{cls}", raised[es[0]][1] + (f" [same for {len(es)} entry points: {', '.join(es)}]" if len(es) > 1 else ""), case_d)
+                viol(f"C09:raises:{eq}:{pair}:{scope}:{cls}", raised[es[0]][1] + (f" [same for {len(es)} entry points: {', '.join(es)}]" if len(es) > 1 else ""), case_d)
     forward_ok = "to" in passed
     inplace_ok = "convert_to_equivalent" in passed or ("convert_to_equivalent" in results and results["convert_to_equivalent"][2])
     # ---- (7) to_value == to().d
     if "to_value" in results and "to" in results:
         g1, g2 = results["to_value"][0], results["to"][0]
         if g1.shape == g2.shape and np.array_equal(np.asarray(g1, dtype="f8"), np.asarray(g2, dtype="f8")):
-            rec.ok(("to_value", eq, a, b, dt, kind)); rec.count("sub:to_value")
+            okc(("to_value", eq, a, b, dt, kind)); cnt("sub:to_value")
         else:
-            rec.violation(f"C09:to_value:{eq}:{pair}:differs", f"to_value({uout!r},{eq!r}) = {g1.tolist()!r} but to(...).d = {g2.tolist()!r}", case_d)
+            viol(f"C09:to_value:{eq}:{pair}:differs", f"to_value({uout!r},{eq!r}) = {g1.tolist()!r} but to(...).d = {g2.tolist()!r}", case_d)
     # ---- (5) in-place == copy
     ref_entry = "to" if forward_ok else None       # when the copying form itself missed the formula that is already reported
     if ref_entry:
@@ -661,7 +761,7 @@ def run_case(unyt, rec, K, case, r):
                 continue
             ig, il, ibad, iu = results[entry]
             if iu != cu:
-                rec.violation(f"C09:inplace-vs-copy:{eq}:{pair}:{entry}:unit", f"in-place form ends in {iu!r}, copying form in {cu!r}", case_d)
+                viol(f"C09:inplace-vs-copy:{eq}:{pair}:{entry}:unit", f"in-place form ends in {iu!r}, copying form in {cu!r}", case_d)
                 continue
             narrow = 4 in (ig.dtype.itemsize, cg.dtype.itemsize) or dt[1] == "4"
             with np.errstate(all="ignore"):
@@ -670,7 +770,7 @@ def run_case(unyt, rec, K, case, r):
             e = EPS["f4"] if narrow else EPS["f8"]
             ok, bad = within(ig, cg, 8 * e * cond * np.abs(cg) + 8 * e * abs(rout.zero) / abs(rout.scale))
             if ok:
-                rec.ok(("inplace-vs-copy", eq, a, b, entry, dt, kind)); rec.count("sub:inplace-vs-copy")
+                okc(("inplace-vs-copy", eq, a, b, entry, dt, kind)); cnt("sub:inplace-vs-copy")
                 ivc_good.append(entry)
                 if ig.dtype == cg.dtype and ig.tobytes() == cg.tobytes():
                     rec.count("inplace-bit-identical")
@@ -679,10 +779,10 @@ def run_case(unyt, rec, K, case, r):
             else:
                 ivc_bad[entry] = f"{eq} {flat(shaped, bad)!r} {uin}->{uout} ({dt},{kind},{kw}): in-place {entry} gives {flat(ig, bad)!r}, copying {ref_entry} gives {flat(cg, bad)!r}"
         if len(ivc_bad) >= 2 and not ivc_good:
-            rec.violation(f"C09:inplace-vs-copy:{eq}:{pair}:all-in-place-forms:numbers:{dcls}", next(iter(ivc_bad.values())) + f" [same for {', '.join(ivc_bad)}]", case_d)
+            viol(f"C09:inplace-vs-copy:{eq}:{pair}:all-in-place-forms:numbers:{dcls}", next(iter(ivc_bad.values())) + f" [same for {', '.join(ivc_bad)}]", case_d)
         else:
             for entry, d_ in ivc_bad.items():
-                rec.violation(f"C09:inplace-vs-copy:{eq}:{pair}:{entry}:numbers:{dcls}", d_, case_d)
+                viol(f"C09:inplace-vs-copy:{eq}:{pair}:{entry}:numbers:{dcls}", d_, case_d)
     if offset_in:
         return
     if not forward_ok:
@@ -690,26 +790,28 @@ def run_case(unyt, rec, K, case, r):
     # ---- same-dimension base conversions with equivalence= (keyword threading in convert_to_base/mks/cgs)
     if not rin.offset and dt in ("f8", "i8"):
         entry = BASE_ENTRIES[idx % 3]
-        x, base, _ = build(unyt, arr, uin, kind)
+        x, base, _ = build(unyt, arr, uin, kind, reg)
         try:
             with np.errstate(all="ignore"):
-                res = call_entry(unyt, entry, x, None, eq, kw)
-            rl = result_unit(res)
-            if rl is None or rl.dim != rin.dim:
-                rec.violation(f"C09:unit:{eq}:{a}:{entry}:dimension", f"{entry}(equivalence={eq!r}) of {uin} data ended in {getattr(res, 'units', None)}", case_d)
+                res = call_entry(unyt, entry, x, None, eq, kw, U)
+            rl = result_unit(res, ov, ovkey)
+            if rl is not None and rl.tainted:
+                rec.count("skipped:tainted-base-label")       # e.g. the solar system's Mearth (listed C02 finding)
+            elif rl is None or rl.dim != rin.dim:
+                viol(f"C09:unit:{eq}:{a}:{entry}:dimension", f"{entry}(equivalence={eq!r}) of {uin} data ended in {getattr(res, 'units', None)}", case_d)
             else:
                 ok, bad = within(rl.to_si(np.asarray(res.d)), xsi, (64 * EPS["f8"] + rin.utol + rl.utol) * np.abs(xsi))
                 if ok:
-                    rec.ok(("base", eq, a, entry, dt, kind)); rec.count("sub:base-equivalence-kw")
+                    okc(("base", eq, a, entry, dt, kind)); cnt("sub:base-equivalence-kw")
                 else:
-                    rec.violation(f"C09:formula:{eq}:{a}->{a}:{entry}:{dt}", f"{entry}(equivalence={eq!r}) changed the quantity: {flat(shaped, bad)!r} {uin} -> {flat(res.d, bad)!r} {res.units}", case_d)
+                    viol(f"C09:formula:{eq}:{a}->{a}:{entry}:{dt}", f"{entry}(equivalence={eq!r}) changed the quantity: {flat(shaped, bad)!r} {uin} -> {flat(res.d, bad)!r} {res.units}", case_d)
         except Exception as e:
             if True:
-                rec.violation(f"C09:raises:{eq}:{a}->{a}:{entry}:{type(e).__name__}", f"{entry}(equivalence={eq!r}) of {uin} data raised {type(e).__name__}: {str(e)[:200]}", case_d)
+                viol(f"C09:raises:{eq}:{a}->{a}:{entry}:{type(e).__name__}", f"{entry}(equivalence={eq!r}) of {uin} data raised {type(e).__name__}: {str(e)[:200]}", case_d)
     # ---- (2) there and back, copying and in-place
     rt = equivs.roundtrip_cond(eq, a, b, xsi, K, **kw)
     for form in ("copy", "inplace"):
-        x, base, _ = build(unyt, arr, uin, kind)
+        x, base, _ = build(unyt, arr, uin, kind, reg)
         if (form == "inplace" and (dt[1] == "4" or not inplace_ok)) or not forward_ok:
             continue
         tap = UfuncTap(unyt)
@@ -726,23 +828,23 @@ def run_case(unyt, rec, K, case, r):
             if rout.offset:
                 rec.note(f"roundtrip-through-offset-refused:{type(e).__name__}")
             elif form == "inplace" and uout in SELF_CANCELLING:      # the back leg is an in-place call on a self-cancelling input unit
-                rec.violation(f"C09:raises:{eq}:all-in-place-forms:{type(e).__name__}:self-cancelling-input-unit",
+                viol(f"C09:raises:{eq}:all-in-place-forms:{type(e).__name__}:self-cancelling-input-unit",
                               f"{uin}->{uout}->{uin} (in-place): second leg raised {type(e).__name__}: {str(e)[:200]}", case_d)
             elif "to" in results:     # a failing forward step was already reported above
-                rec.violation(f"C09:roundtrip:{eq}:{a}->{b}->{a}:{form}:raises:{type(e).__name__}", f"{uin}->{uout}->{uin} ({form}) raised {type(e).__name__}: {str(e)[:200]}", case_d)
+                viol(f"C09:roundtrip:{eq}:{a}->{b}->{a}:{form}:raises:{type(e).__name__}", f"{uin}->{uout}->{uin} ({form}) raised {type(e).__name__}: {str(e)[:200]}", case_d)
             continue
         if back is None or not hasattr(back, "units"):
             if "to" in results:
-                rec.violation(f"C09:roundtrip:{eq}:{a}->{b}->{a}:{form}:none", f"{uin}->{uout}->{uin} ({form}) returned {back!r}", case_d)
+                viol(f"C09:roundtrip:{eq}:{a}->{b}->{a}:{form}:none", f"{uin}->{uout}->{uin} ({form}) returned {back!r}", case_d)
             continue
         bg = np.asarray(back.d)
         e = eps_of(bg.dtype)
         with np.errstate(all="ignore"):
             if dt[1] == "4" and (tap.bad or not np.all(np.isfinite(bg)) or np.any(np.abs(bg) < F4_TINY)):
                 rec.note("narrow-buffer-range:roundtrip"); continue
-        rl = result_unit(back)
+        rl = result_unit(back, ov, ovkey)
         if rl is None or rl.dim != rin.dim or abs(rl.scale / rin.scale - 1) > 1e-9:
-            rec.violation(f"C09:roundtrip:{eq}:{a}->{b}->{a}:{form}:unit", f"{uin}->{uout}->{uin} ({form}) ended in {back.units}", case_d)
+            viol(f"C09:roundtrip:{eq}:{a}->{b}->{a}:{form}:unit", f"{uin}->{uout}->{uin} ({form}) ended in {back.units}", case_d)
             continue
         with np.errstate(all="ignore"):
             rb = 128 * e * rt * (amp_in + abs(rout.zero) / np.abs(ysi)) * np.abs(shaped.astype(equivs.LD)) + 128 * e * abs(rin.zero) / abs(rin.scale)
@@ -750,9 +852,9 @@ def run_case(unyt, rec, K, case, r):
             rec.note(f"roundtrip-ill-conditioned:{eq}:{pair}"); continue       # the bound itself exceeds the value: nothing to judge
         ok, bad = within(bg, shaped.astype(equivs.LD), rb)
         if ok:
-            rec.ok(("roundtrip", eq, a, b, form, dt, kind)); rec.ok(("roundtrip-units", eq, a, b, uin, uout), n=0); rec.count("sub:roundtrip")
+            okc(("roundtrip", eq, a, b, form, dt, kind)); okc(("roundtrip-units", eq, a, b, uin, uout), n=0); cnt("sub:roundtrip")
         else:
-            rec.violation(f"C09:roundtrip:{eq}:{a}->{b}->{a}:{form}:value",
+            viol(f"C09:roundtrip:{eq}:{a}->{b}->{a}:{form}:value",
                           f"{flat(shaped, bad)!r} {uin} -> {uout} -> {uin} ({eq}, {form}, {dt}, {kind}, {kw}) came back as {flat(bg, bad)!r}", case_d)
     # ---- (3) via an intermediate member == direct
     if a != b and forward_ok:
@@ -764,30 +866,47 @@ def run_case(unyt, rec, K, case, r):
             uc = pc_[r.randrange(len(pc_))]
             if RefUnit.get(uc).tainted:
                 continue
-            x, base, _ = build(unyt, arr, uin, kind)
+            x, base, _ = build(unyt, arr, uin, kind, reg)
             tap = UfuncTap(unyt)
             try:
                 with tap, np.errstate(all="ignore"):
                     via = x.to(uc, eq, **kw).to(uout, eq, **kw)
             except Exception as e:
-                rec.violation(f"C09:path:{eq}:{a}->{cmem}->{b}:raises:{type(e).__name__}", f"{uin}->{uc}->{uout} raised {type(e).__name__}: {str(e)[:200]}", case_d)
+                viol(f"C09:path:{eq}:{a}->{cmem}->{b}:raises:{type(e).__name__}", f"{uin}->{uc}->{uout} raised {type(e).__name__}: {str(e)[:200]}", case_d)
                 continue
             if via is None or not hasattr(via, "units"):
-                rec.violation(f"C09:path:{eq}:{a}->{cmem}->{b}:none", f"{uin}->{uc}->{uout} returned {via!r}", case_d)
+                viol(f"C09:path:{eq}:{a}->{cmem}->{b}:none", f"{uin}->{uc}->{uout} returned {via!r}", case_d)
                 continue
             vg = np.asarray(via.d)
             if dt[1] == "4" and (tap.bad or results["to"][2]):
                 rec.note("narrow-buffer-range:path"); continue
             ok, bad = within(vg, direct, 256 * eps_of(vg.dtype) * np.maximum(cond, 1) * np.abs(direct) + 256 * eps_of(vg.dtype) * abs(rout.zero) / abs(rout.scale))
             if ok and str(via.units) == results["to"][3]:
-                rec.ok(("path", eq, a, cmem, b, dt, kind)); rec.count("sub:path")
+                okc(("path", eq, a, cmem, b, dt, kind)); cnt("sub:path")
             else:
-                rec.violation(f"C09:path:{eq}:{a}->{cmem}->{b}:{'value' if not ok else 'unit'}",
+                viol(f"C09:path:{eq}:{a}->{cmem}->{b}:{'value' if not ok else 'unit'}",
                               f"{flat(shaped, bad)!r} {uin} -> {uc} -> {uout} gives {flat(vg, bad)!r} {via.units}; direct gives {flat(direct, bad)!r} {results['to'][3]} ({eq}, {kw})", case_d)
 
 
 # ------------------------------------------------------------------------------------------------ refusal and membership
 REFUSE_ENTRIES = ("to", "in_units", "to_equivalent", "to_value", "convert_to_units", "convert_to_equivalent", "Equivalence.convert")
+
+
+REFUSE_REGS = ("cgs", "galactic", "code", "imperial", "planck", "added", "geometrized", "solar", "mks")
+
+
+def refuse_spec(rk):
+    """registry specs of the refusal / membership probes (units stay default spellings; the registry differs)"""
+    spec = {"cls": "nonmks-system", "sys": rk, "add": [], "mod": [], "codesys": False, "tu": "own"}
+    if rk == "mks":
+        spec["cls"] = "mks-system"
+    elif rk == "code":
+        spec.update(cls="code-units", sys="cgs", codesys=True,
+                    add=[["code_length", 3.0e21, "length", False], ["code_mass", 2.0e40, "mass", False], ["code_time", 3.15e13, "rate", False],
+                         ["code_temperature", 2.0, "temperature", False]])
+    elif rk == "added":
+        spec.update(cls="added-symbols", sys=None, add=[["my_energy", 2.5e-7, "energy", True], ["my_length", 3.0e3, "length", False]])
+    return spec
 
 
 def run_refuse(unyt, rec, payload):
@@ -799,33 +918,50 @@ def run_refuse(unyt, rec, payload):
     for kname, us in dd.items():
         for u in us:
             info[u] = (kname, RefUnit.get(u))
+    npair = 0
+    regcache = {}
     for (u1, (k1, r1)), (u2, (k2, r2)) in itertools.product(info.items(), info.items()):
         if r1.dim == r2.dim:
             continue                  # same-dimension shortcut: ordinary conversion
         if equivs.covers(eq, r1.dim, r2.dim):
             continue
-        variants = [("f8", "a1")] if tier == "quick" else [("f8", "a1"), ("i8", "q"), ("f4", "view")]
-        for dt, kind in variants:
+        variants = [("f8", "a1", None)] if tier == "quick" else [("f8", "a1", None), ("i8", "q", None), ("f4", "view", None)]
+        npair += 1
+        if tier == "thorough" or npair % 3 == 0:       # the same request on operands bound to a non-default registry
+            rk = REFUSE_REGS[(npair // 3) % len(REFUSE_REGS)]
+            variants.append(("f8", ("a1", "q", "view")[npair % 3], rk))
+        for dt, kind, rk in variants:
             arr = np.array([1 + r.randrange(9), 2, 3, 4, 5, 7], dtype=dt)
+            reg, U, ksuf, rcell = None, None, "", ()
+            if rk is not None:
+                if rk not in regcache:
+                    regcache[rk] = regs.build_registry(unyt, refuse_spec(rk))
+                reg = regcache[rk]
+                U = lambda s_, reg=reg: unyt.Unit(s_, registry=reg)      # noqa: E731
+                cls_ = refuse_spec(rk)["cls"]
+                ksuf, rcell = ":reg=" + cls_, ("reg=" + cls_,)
             for entry in REFUSE_ENTRIES:
-                x, base, _ = build(unyt, arr, u1, kind)
+                x, base, _ = build(unyt, arr, u1, kind, reg)
                 before = snap(x)
                 try:
                     with np.errstate(all="ignore"):
-                        res = call_entry(unyt, entry, x, u2, eq, {})
+                        res = call_entry(unyt, entry, x, u2, eq, {}, U)
                     exc = None
                 except Exception as e:
                     exc = e
                 rec.count("calls:refuse:" + entry)
                 kk = f"{'member' if equivs.has_member(eq, r1.dim) else 'outsider'}:{k1}->{'member' if equivs.has_member(eq, r2.dim) else 'outsider'}:{k2}"
+                rd = f"[operands bound to {regs.describe(refuse_spec(rk))}] " if rk else ""
                 if exc is None:
-                    rec.violation(f"C09:not-refused:{eq}:{kk}:{entry}",
-                                  f"{arr.tolist()} {u1} -> {u2!r} with equivalence {eq!r} via {entry} returned {res!r}; {eq} does not relate these dimensions", [eq, u1, u2, entry])
+                    rec.violation(f"C09:not-refused:{eq}:{kk}:{entry}" + ksuf,
+                                  f"{rd}{arr.tolist()} {u1} -> {u2!r} with equivalence {eq!r} via {entry} returned {res!r}; {eq} does not relate these dimensions", [eq, u1, u2, entry, rk])
                 elif type(exc).__name__ != "InvalidUnitEquivalence" or not isinstance(exc, unyt.exceptions.InvalidUnitEquivalence):
-                    rec.violation(f"C09:wrong-exception:{eq}:{kk}:{entry}:{type(exc).__name__}",
-                                  f"{u1} -> {u2!r} with equivalence {eq!r} via {entry} raised {type(exc).__name__} ({str(exc)[:150]}), not InvalidUnitEquivalence", [eq, u1, u2, entry])
+                    rec.violation(f"C09:wrong-exception:{eq}:{kk}:{entry}:{type(exc).__name__}" + ksuf,
+                                  f"{rd}{u1} -> {u2!r} with equivalence {eq!r} via {entry} raised {type(exc).__name__} ({str(exc)[:150]}), not InvalidUnitEquivalence", [eq, u1, u2, entry, rk])
                 else:
-                    rec.ok(("refusal", eq, k1, k2, entry, dt, kind)); rec.count("sub:refusal")
+                    rec.ok(("refusal", eq, k1, k2, entry, dt, kind) + rcell); rec.count("sub:refusal")
+                    if rk is not None:
+                        rec.count("reg:sub:refusal")
                     if snap(x) != before:
                         rec.note(f"operand-changed-by-refused-call:{entry}")
     rec.reach("refuse:" + eq)
@@ -869,6 +1005,29 @@ def run_membership(unyt, rec, payload):
                 else:
                     rec.violation(f"C09:list_equivalencies:{kname}:{api}:{'extra' if listed - expect else 'missing'}",
                                   f"{api} on {u!r} lists {sorted(listed)}; the equivalences with a {kname} member are {sorted(expect)}", [u])
+    # the same questions asked of units / arrays bound to non-default registries (incl. registry symbols)
+    for rk in REFUSE_REGS:
+        spec = refuse_spec(rk)
+        reg = regs.build_registry(unyt, spec)
+        ov = regs.overlay(spec) or None
+        ovkey = tuple(sorted((k, v[0]) for k, v in ov.items())) if ov else None
+        probe = [(kname, us[0]) for kname, us in payload["dims"].items()] + [("registry-symbol", sym) for sym in (ov or {})]
+        for kname, u in probe:
+            ru = RefUnit.get(u, ov, ovkey)
+            U = unyt.Unit(u, registry=reg)
+            q = unyt.unyt_array(np.array([1.0, 2.0]), u, registry=reg)
+            expect = {eq for eq in EQS if equivs.has_member(eq, ru.dim)}
+            for eq in EQS:
+                for api, fn in (("Unit.has_equivalent", lambda: U.has_equivalent(eq)), ("array.has_equivalent", lambda: q.has_equivalent(eq))):
+                    try:
+                        got = fn()
+                    except Exception as e:
+                        rec.violation(f"C09:has_equivalent:{eq}:{kname}:{api}:raises:reg={spec['cls']}", f"{api}({eq!r}) on {u!r} in {regs.describe(spec)} raised {type(e).__name__}: {e}", [u, eq, rk]); continue
+                    if bool(got) == (eq in expect) and isinstance(got, (bool, np.bool_)):
+                        rec.ok(("has_equivalent", eq, kname, api, "reg=" + spec["cls"])); rec.count("sub:has_equivalent"); rec.count("reg:sub:has_equivalent")
+                    else:
+                        rec.violation(f"C09:has_equivalent:{eq}:{kname}:{api}:{'true' if got else 'false'}:reg={spec['cls']}",
+                                      f"{api}({eq!r}) on {u!r} in {regs.describe(spec)} is {got!r}; {eq} relates {equivs.MEMBERS[eq]}", [u, eq, rk])
     # registry content itself
     from unyt.equivalencies import equivalence_registry
     if set(equivalence_registry) == set(EQS):
@@ -899,6 +1058,11 @@ DECIDING = ("sub:formula", "sub:unit", "sub:purity", "sub:inplace-vs-copy", "sub
             "sub:has_equivalent", "sub:list_equivalencies", "sub:base-equivalence-kw", "sub:offset-input")
 
 
+# the same monitors evaluated on operands bound to a non-default registry
+REG_DECIDING = tuple("reg:" + k for k in ("sub:formula", "sub:unit", "sub:purity", "sub:inplace-vs-copy", "sub:to_value", "sub:roundtrip", "sub:path",
+                                          "sub:base-equivalence-kw", "sub:refusal", "sub:has_equivalent"))
+
+
 def extra(tier, seed, results):
     counters = {}
     reached = set()
@@ -910,7 +1074,12 @@ def extra(tier, seed, results):
         nviol += len(res.get("viol", {}))
     want = {f"{eq}:{a}->{b}" for (eq, a, b) in all_pairs()} | {"refuse:" + eq for eq in EQS} | {"membership"}
     unreached = sorted(want - reached)
-    sub = {k: counters.get(k, 0) for k in DECIDING}
+    sub = {k: counters.get(k, 0) for k in DECIDING + REG_DECIDING}
+    for cls in regs.CLASSES:                   # every registry class must have reached the formula and there-and-back monitors
+        for m in ("sub:formula", "sub:roundtrip"):
+            sub[f"reg:{cls}:{m}"] = counters.get(f"reg:{cls}:{m}", 0)
+    for sysname in regs.NONMKS:                # ... and every built-in non-MKS system must have been a registry default
+        sub["reg:system:" + sysname] = counters.get("reg:system:" + sysname, 0)
     if not nviol:
         dead = [k for k, v in sub.items() if v == 0]
         if dead:
@@ -919,5 +1088,6 @@ def extra(tier, seed, results):
         if missing_pairs:
             raise core.Inconclusive("member-pairs-never-reached:" + ",".join(missing_pairs[:6]))
     return {"sub_monitor_evaluations": sub, "unreached": unreached,
+            "registry_cases": {k[10:]: v for k, v in counters.items() if k.startswith("reg:cases:")},
             "monitor_calls": {k[6:]: v for k, v in counters.items() if k.startswith("calls:")},
             "skipped": {k[8:]: v for k, v in counters.items() if k.startswith("skipped:")}}
